@@ -1,8 +1,8 @@
 ------------------------------ MODULE MCPaths ------------------------------
 EXTENDS Paths, Json
-MCKeyVals == {"a", "b", "a ", "a_b", "b_a", "_", "a/b", "/", "a:b", "a=b", "a b", "a]", "[a]", "a\\b", "ab"}
+MCKeyVals == {"a", "b", "a ", "a_b", "b_a", "_", "a/b", "b/a", "/", "a:b", "a=b", "a b", "a]", "[a]", "a\\b", "ab"}
 MCKeyVals3 == {"a", "a_a", "_", "a/b"}
-MCKeyValsT == MCKeyVals \cup {"a_", "_a", "a__b", "a/", "/a", "a b ", "a:", "=", "a.b", "a-b", "x y z", "aa"}
+MCKeyValsT == MCKeyVals \cup {"b:a", "b=a", "b a", "a_", "_a", "a__b", "a/", "/a", "a b ", "a:", "=", "a.b", "a-b", "x y z", "aa"}
 MCKeyVals3T == MCKeyVals3 \cup {"a_", "b", "a a"}
 VARIABLE x
 Init == x = 0
